@@ -6,6 +6,7 @@ import (
 	"fmt"
 	"math"
 	"math/bits"
+	"strconv"
 	"strings"
 )
 
@@ -116,6 +117,7 @@ type Ctx struct {
 	terms []*Term
 	Vars  map[string]*Term
 	T, F  *Term
+	keybuf []byte
 }
 
 func NewCtx() *Ctx {
@@ -128,13 +130,26 @@ func NewCtx() *Ctx {
 func (c *Ctx) NumTerms() int { return len(c.terms) }
 
 func (c *Ctx) mk(t *Term) *Term {
-	var sb strings.Builder
-	fmt.Fprintf(&sb, "%d|%d|%d|%d|%d|%d|%s", t.Op, t.Sort.K, t.Sort.W, t.U, t.I, t.J, t.Name)
+	b := c.keybuf[:0]
+	b = strconv.AppendInt(b, int64(t.Op), 10)
+	b = append(b, '|')
+	b = strconv.AppendInt(b, int64(t.Sort.K), 10)
+	b = append(b, '|')
+	b = strconv.AppendInt(b, int64(t.Sort.W), 10)
+	b = append(b, '|')
+	b = strconv.AppendUint(b, t.U, 16)
+	b = append(b, '|')
+	b = strconv.AppendInt(b, int64(t.I), 10)
+	b = append(b, '|')
+	b = strconv.AppendInt(b, int64(t.J), 10)
+	b = append(b, '|')
+	b = append(b, t.Name...)
 	for _, a := range t.Args {
-		fmt.Fprintf(&sb, "|%d", a.ID)
+		b = append(b, '|')
+		b = strconv.AppendInt(b, int64(a.ID), 10)
 	}
-	k := sb.String()
-	if x, ok := c.tab[k]; ok {
+	c.keybuf = b
+	if x, ok := c.tab[string(b)]; ok {
 		return x
 	}
 	t.ID = len(c.terms)
@@ -143,7 +158,7 @@ func (c *Ctx) mk(t *Term) *Term {
 		t.size += a.size
 	}
 	c.terms = append(c.terms, t)
-	c.tab[k] = t
+	c.tab[string(b)] = t
 	return t
 }
 
@@ -157,6 +172,38 @@ func (c *Ctx) Var(name string, s Sort) *Term {
 	v := c.mk(&Term{Op: OVar, Sort: s, Name: name})
 	c.Vars[name] = v
 	return v
+}
+
+// IntVar is the 64-bit term of an integer input known to lie in [lo,hi]. Small
+// ranges are declared as 8-bit variables and extended, which keeps the
+// bit-blasted problem small; the variable keeps the given name.
+func (c *Ctx) IntVar(name string, lo, hi int64) *Term {
+	if lo >= 0 && hi < 128 {
+		return c.Zext(c.Var(name, BV(8)), 64)
+	}
+	if lo >= -128 && hi < 128 {
+		return c.Sext(c.Var(name, BV(8)), 64)
+	}
+	return c.Var(name, BV(64))
+}
+
+// IntVarValue decodes the model value of an IntVar.
+func IntVarValue(v Val, lo, hi int64) int64 {
+	if lo >= 0 && hi < 128 {
+		return int64(v.U & 0xff)
+	}
+	if lo >= -128 && hi < 128 {
+		return int64(int8(v.U))
+	}
+	return int64(v.U)
+}
+
+// IntVarEncode encodes a value for the model of an IntVar.
+func IntVarEncode(x int64, lo, hi int64) Val {
+	if lo >= -128 && hi < 128 {
+		return Val{uint64(x) & 0xff}
+	}
+	return Val{uint64(x)}
 }
 
 func mask(w int) uint64 {
